@@ -1,4 +1,5 @@
 import VizierModel.Driver.SvcJson
+import VizierModel.Model.ServiceInv
 open Lean VizierModel VizierModel.Svc VizierModel.Driver VizierModel.Driver.SvcJson
 
 /-- {"op":"run","cfg":{..},"reqs":[..],"snaps":bool} -> responses, final snapshot, optional per-step snapshots -/
@@ -16,9 +17,75 @@ def runHistory (j : Json) : Except String Json := do
     if wantSnaps then snaps := snaps.push (jsonOfDB db)
   return Json.mkObj [("resps", toJson resps), ("final", jsonOfDB db), ("snaps", toJson snaps)]
 
+def findKey (db : DB) (k : String × String) : Option Study := db.studies.find? (fun s => keyOf' s == k)
+  where keyOf' (s : Study) : String × String := (s.owner, s.sid)
+
+/-- judge one observed step of the REAL service with the predicates of `Model/ServiceInv.lean`:
+    {"op":"judge","before":DB,"after":DB,"req":Req?,"handed":[Trial]} -/
+def judge (j : Json) : Except String Json := do
+  let before ← dbOfJson (← j.getObjVal? "before")
+  let after ← dbOfJson (← j.getObjVal? "after")
+  let mut lifecycle := true
+  let mut fresh := true
+  let mut nodup := true
+  let mut clients := true
+  let mut pendingFree := true
+  let mut noActiveEs := true
+  let mut bad : Array Json := #[]
+  for st' in after.studies do
+    if !idsNodup st'.trials then nodup := false; bad := bad.push (Json.str s!"duplicate trial ids in {st'.sid}")
+    if !clientsOK st'.trials then clients := false
+    if !allOpsDone st' then pendingFree := false
+    if !noActiveEsOp st' then noActiveEs := false
+    match before.studies.find? (fun s => s.owner == st'.owner && s.sid == st'.sid) with
+    | none => pure ()
+    | some st =>
+      if !trialsStepOK st.trials st'.trials then
+        lifecycle := false
+        for t in st.trials do
+          for t' in st'.trials do
+            if t.id == t'.id && !trialStepOK t t' then
+              bad := bad.push (Json.mkObj [("trial", toJson t.id), ("before", jsonOfTrial t), ("after", jsonOfTrial t')])
+      if !freshIdsOK st.trials st'.trials then fresh := false
+  -- suggest-specific predicates (C02)
+  let mut handedOK := true
+  let mut countOK := true
+  let mut expected : Json := .null
+  match j.getObjVal? "req" with
+  | .ok rq =>
+    if (rq.getObjValAs? String "op").toOption == some "suggest" then
+      let handed ← (← getArr j "handed").toList.mapM trialOfJson
+      let client ← getStr rq "client"
+      let count ← getNat rq "count"
+      let o := (rq.getObjValAs? String "owner").toOption.getD "o"
+      let s := (rq.getObjValAs? String "sid").toOption.getD "s"
+      handedOK := handed.all fun t => t.state == .active && t.client == client
+      match before.studies.find? (fun x => x.owner == o && x.sid == s) with
+      | none => pure ()
+      | some st =>
+        let own := (ownActive st client).length
+        let pl := (pool st).length
+        let alg := (rq.getObjVal? "alg").toOption.getD .null
+        let delivered := match alg.getObjValAs? (Array Json) "sugg" with | .ok a => a.size | .error _ => 0
+        let want := min count (own + pl + delivered)
+        expected := toJson want
+        if (j.getObjValAs? Bool "countApplies").toOption.getD false then
+          countOK := handed.length == want
+        -- sticky: enough own trials -> exactly the first `count` of them, in datastore order
+        if own ≥ count && (j.getObjValAs? Bool "countApplies").toOption.getD false then
+          if handed.map (·.id) != ((ownActive st client).take count).map (·.id) then countOK := false
+  | .error _ => pure ()
+  return Json.mkObj [("lifecycle", toJson lifecycle), ("fresh", toJson fresh), ("nodup", toJson nodup),
+    ("clients", toJson clients), ("pendingFree", toJson pendingFree), ("noActiveEs", toJson noActiveEs),
+    ("handedOK", toJson handedOK), ("countOK", toJson countOK), ("expectedCount", expected), ("bad", toJson bad)]
+  where
+    ownActive (st : Study) (client : String) : List Trial := st.trials.filter fun t => t.state == .active && t.client == client
+    pool (st : Study) : List Trial := st.trials.filter (·.state == .requested)
+
 def handle (j : Json) : Except String Json := do
   match ← getStr j "op" with
   | "run" => runHistory j
+  | "judge" => judge j
   | op => throw s!"unknown op {op}"
 
 def main : IO Unit := serve handle
